@@ -245,3 +245,41 @@ func CheckNoncanon(o Obs, r *core.Rand, packet bool, st *types.Stat, pk *types.P
 		}
 	}
 }
+
+// OverlapStat builds a Stat encoding whose xattr map entries announce key or
+// value lengths that reach beyond the entry they belong to (but not beyond
+// the message): n entries, each a few bytes long, each claiming everything
+// that follows as its value. A decoder that checks these lengths against the
+// end of the message instead of the end of the entry copies the tail once per
+// entry (quadratic in the input) and decodes the same bytes again afterwards.
+func OverlapStat(r *core.Rand, n int) []byte {
+	// build back to front: the tail is a harmless varint field (mode = 1)
+	tail := []byte{0x10, 0x01}
+	for i := 0; i < n; i++ {
+		key := []byte{byte('a' + i%26), byte('a' + (i/26)%26), byte('a' + (i/676)%26)}
+		var hdr []byte
+		hdr = protowire.AppendTag(hdr, 1, protowire.BytesType)
+		hdr = protowire.AppendBytes(hdr, key)
+		hdr = protowire.AppendTag(hdr, 2, protowire.BytesType)
+		hdr = protowire.AppendVarint(hdr, uint64(len(tail))) // the value "is" everything that follows
+		var e []byte
+		e = protowire.AppendTag(e, 10, protowire.BytesType)
+		e = protowire.AppendVarint(e, uint64(len(hdr))) // but the entry ends after its header
+		e = append(e, hdr...)
+		tail = append(e, tail...)
+	}
+	return tail
+}
+
+// RenameObs forwards to an Obs with one violation class renamed.
+type RenameObs struct {
+	Obs
+	From, To string
+}
+
+func (o RenameObs) Violate(sig, format string, a ...any) {
+	if sig == o.From {
+		sig = o.To
+	}
+	o.Obs.Violate(sig, format, a...)
+}
